@@ -233,6 +233,34 @@ def run(ctx):
         r.finish("s", ms)
         r.t.consts(ps)
         traces.append(r.json())
+    # many parameter sets and groups in one process (tables or caches with a capacity), then the first ones again
+    many = []
+    for k in range(90 if thorough else 70):
+        name = "Pmany%d" % k
+        gk = ["i23", "i263", "ed37", "i11"][k % 4]
+        try:
+            uni.paramset(name, grp=gk, M=b"M-%d" % k, N=b"N-%d" % k, S=b"S-%d" % k)
+        except AssertionError:
+            continue                      # a seed that hits finding F7 (HKDF output 0 mod p) on a tiny group: not a C16 matter
+        many.append((name, gk))
+    r = Run("many-parameter-sets", uni)
+    first = {}
+    for rnd in range(2):
+        for k, (name, gk) in enumerate(many if rnd == 0 else many[:6]):
+            q = uni.group(gk).order()
+            v = "s%d.%d" % (rnd, k)
+            try:
+                r.new(v, "ABS"[k % 3], name, b"pw", b"a", b"b" if k % 3 != 2 else b"")
+            except Exception:
+                continue                  # a seed that hits finding F7 on a tiny group
+            r.start(v, mp.stream_for(gk, 3 % q))
+            blob = r.serialize(v)
+            if rnd == 0 and k < 6:
+                first[k] = (blob, "ABS"[k % 3], name)
+    for k, (blob, cls, name) in first.items():
+        if blob is not None:
+            r.restore("back%d" % k, cls, name, blob)
+    traces.append(r.json())
     # interleaved sessions on the shipped sets (one thread): two exchanges on different sets, calls alternating
     for ps in ("PEd25519", "P1024", "P2048", "P3072"):
         uni.paramset(ps)
